@@ -148,6 +148,8 @@ def output_checks(ctx, cs, cid, m0, mi, ps, k, meta, coq=True, tol=1e-9):
     """event k of the list of momenta ps (one array [N,4] per particle): on shell, sum = (m0,0,0,0)"""
     fails = []
     vecs = [arr(p)[k] for p in ps]
+    if not all(np.all(np.isfinite(v)) for v in vecs):
+        return ["non-finite momenta %r" % [v.tolist() for v in vecs]]
     tot = sum(vecs)
     for i, (p, m) in enumerate(zip(vecs, mi)):
         # M = sqrt(|E^2-p^2|): absolute accuracy of m^2 ~ E^2 * 1e-16
@@ -333,7 +335,12 @@ def count_cases(ctx, rnd, cs, quick):
               (3.0, (0.5, (1.2, (0.0, 0.0, 0.4)), 0.3), [0.5, 0.0, 0.0, 0.4, 0.3])]
     for ni, (m0, st, leaves) in enumerate(nested):
         for N in ([7, 100] if quick else Ns):
-            pi = generate_phsp(m0, st, N)
+            inp = {"m0": m0, "struct": repr(st), "N": N}
+            try:
+                pi = generate_phsp(m0, st, N)
+            except Exception as e:
+                bad("C.count", "generate_phsp raised %r" % (e,), inp)
+                continue
             flat = []
 
             def fl(t):
@@ -359,7 +366,11 @@ def count_cases(ctx, rnd, cs, quick):
                     bad("O.nested_mass", "intermediate mass %r != 0.3" % mab, inp)
     for N in [1, 7, 100]:
         m0, mi = gen_mass_set(rnd, 3, "generic")
-        pf = gen_mc(m0, mi, N)
+        try:
+            pf = gen_mc(m0, mi, N)
+        except Exception as e:
+            bad("C.count", "gen_mc raised %r" % (e,), {"m0": m0, "mi": mi, "N": N})
+            continue
         ctx.count("count:gen_mc"); ctx.evaluations += 1
         if pf.shape != (N * 3, 4):
             bad("C.count", "gen_mc returned shape %r" % (pf.shape,), {"m0": m0, "mi": mi, "N": N})
@@ -439,7 +450,10 @@ def search(ctx, fails):
                 if wc > 1 + 1e-12 or wc < 0:
                     return {"property": "acceptance weight in [0,1]", "m0": m0, "mi": mi, "ladder": [float(arr(x)[0]) for x in lad], "weight": wc}
         Nq = rnd.choice([1, 2, 7, 100])
-        ps = gen.generate(Nq)
+        try:
+            ps = gen.generate(Nq)
+        except Exception as e:
+            return {"property": "generate(N) returns N events", "m0": m0, "mi": mi, "N": Nq, "error": repr(e)[:500]}
         if any(tuple(arr(p).shape) != (Nq, 4) for p in ps):
             return {"property": "generate(N) returns N events", "m0": m0, "mi": mi, "N": Nq, "shapes": [tuple(arr(p).shape) for p in ps]}
         f = output_checks(ctx, None, "s", m0, mi, ps, 0, {}, coq=False, tol=tol_sum())
